@@ -4,7 +4,12 @@
 // Condition with shim voices / estimator / labels (C01: one frame period for vocoder and generator, optional low-pass
 // order; C08 / C09: speed vs alignment dispatch; C14: beta; C16: volume reach the vocoder unchanged).  Kept apart from
 // K-genargs so that a restructuring of one part of generator does not take the other harness down.
-//@harness name=generator_vocoder_duration_and_speech_arguments tier=quick label=proved props=C01,C08,C09,C14,C16 timeout=900
+// One harness per group of arguments, so that a failure is reported under the properties that argument carries only.
+//@harness name=generator_vocoder_orders_rate_and_period tier=quick label=proved props=C01 timeout=900
+//@harness name=generator_vocoder_alpha_and_beta tier=quick label=proved props=C14 timeout=900
+//@harness name=generator_vocoder_volume tier=quick label=proved props=C16 timeout=900
+//@harness name=generator_duration_dispatch tier=quick label=proved props=C08,C09 timeout=900
+//@harness name=generator_speech_arguments tier=quick label=proved props=C01 timeout=900
 use super::*;
 
 // ---- the other argument lists of generator: Vocoder::new, the duration dispatch, SpeechGenerator::new ----
@@ -40,8 +45,7 @@ impl SEngine2 {
     }
 }
 
-#[kani::proof]
-fn generator_vocoder_duration_and_speech_arguments() {
+fn any_engine2() -> (SEngine2, Condition, bool) {
     let mut c = Condition::default();
     c.sampling_frequency = kani::any();
     c.fperiod = kani::any();
@@ -59,18 +63,56 @@ fn generator_vocoder_duration_and_speech_arguments() {
         voices: SVoices { g: SGlobalMeta { num_streams: if three { 3 } else { 2 } },
                           s: vec![SStreamMeta { vector_length: 35 }, SStreamMeta { vector_length: 1 }, SStreamMeta { vector_length: 31 }] },
     };
-    // C01 / C14 / C16: Vocoder::new(order of stream 0, order of the optional low-pass stream or 0, stage, log gain, rate, alpha, beta, volume, frame period)
+    (e, c, three)
+}
+
+// Vocoder::new(order of stream 0, order of the optional low-pass stream or 0, stage, log gain, rate, alpha, beta, volume, frame period)
+/// C01: the orders, the stage / gain convention, the rate and the frame period
+#[kani::proof]
+fn generator_vocoder_orders_rate_and_period() {
+    let (e, c, three) = any_engine2();
     let v = e.vocoder_args();
     assert!(v.0 == 35 && v.1 == (if three { 31 } else { 0 }));
     assert!(v.2 == c.stage && v.3 == c.use_log_gain && v.4 == c.sampling_frequency);
-    assert!(v.5.to_bits() == c.alpha.to_bits() && v.6.to_bits() == c.beta.to_bits() && v.7.to_bits() == c.volume.to_bits());
     assert!(v.8 == c.fperiod);
-    // C08 / C09: alignment on -> create_with_alignment(labels.times()); off -> create(speed)
+    kani::cover!(three);
+    kani::cover!(!three);
+    std::mem::forget(e);
+}
+/// C14: alpha and beta reach the vocoder unchanged
+#[kani::proof]
+fn generator_vocoder_alpha_and_beta() {
+    let (e, c, _three) = any_engine2();
+    let v = e.vocoder_args();
+    assert!(v.5.to_bits() == c.alpha.to_bits() && v.6.to_bits() == c.beta.to_bits());
+    kani::cover!(true);
+    std::mem::forget(e);
+}
+/// C16: the stored linear volume reaches the vocoder unchanged
+#[kani::proof]
+fn generator_vocoder_volume() {
+    let (e, c, _three) = any_engine2();
+    let v = e.vocoder_args();
+    assert!(v.7.to_bits() == c.volume.to_bits());
+    kani::cover!(true);
+    std::mem::forget(e);
+}
+/// C08 / C09: alignment on -> create_with_alignment(labels.times()); off -> create(speed)
+#[kani::proof]
+fn generator_duration_dispatch() {
+    let (e, c, _three) = any_engine2();
     let d = e.durations(&SEstimator, &SLabels);
     if c.phoneme_alignment_flag { assert!(d == SDur::Aligned(77)); } else { assert!(matches!(d, SDur::Speed(s) if s.to_bits() == c.speed.to_bits())); }
-    // C01: the generator renders with the SAME frame period the vocoder was built with, streams in the order spectrum, log-F0, low-pass
+    kani::cover!(c.phoneme_alignment_flag);
+    kani::cover!(!c.phoneme_alignment_flag);
+    std::mem::forget(e);
+}
+/// C01: the generator renders with the SAME frame period the vocoder was built with, streams in the order spectrum, log-F0, low-pass
+#[kani::proof]
+fn generator_speech_arguments() {
+    let (e, c, _three) = any_engine2();
     let sp = e.speech_args(9, 1, 2, 3);
     assert!(sp.0 == c.fperiod && sp.1 == 9 && sp.2 == 1 && sp.3 == 2 && sp.4 == 3);
-    kani::cover!(three && c.phoneme_alignment_flag);
+    kani::cover!(true);
     std::mem::forget(e);
 }
